@@ -15,6 +15,9 @@ def walls_of(kind, ws, we):
 
 
 def drive(ctx):
+    from .. import suite
+
+    suite.trace_suite(ctx)      # the repository's own tests, recorded by the external tracer
     from .. import gr
 
     gr.replay(ctx)          # behaviours of the Session state machine, real objects threaded
